@@ -113,7 +113,8 @@ type execResult struct {
 	hung    bool
 }
 
-func runSchedule(pool []geojson.Object, sc c16Scenario, prefix []int8, parent []spoint) execResult {
+func runSchedule(_ []geojson.Object, sc c16Scenario, prefix []int8, parent []spoint) execResult {
+	pool := c16Fresh(sc) // fresh objects for every execution
 	s := &sched{prefix: prefix, parent: parent, allDone: make(chan struct{}, 1)}
 	for range sc.Calls {
 		s.threads = append(s.threads, &sthread{resume: make(chan struct{})})
@@ -198,18 +199,18 @@ func c16Worker(args []string) {
 			return rt.Case{Kind: "schedule", Op: "interleave", Ops: sc.ops(), X: map[string]string{"choices": strings.Join(cs, ",")}}
 		}
 		o.begin(func() rt.Case { return mk(nil) })
-		pool := c16Pool()
+		var pool []geojson.Object
 		// solo results on a fresh pool
 		solo := make([]string, len(sc.Calls))
 		for i, c := range sc.Calls {
-			solo[i] = c.run(c16Pool())
+			solo[i] = c.run(c16Fresh(sc))
 		}
 		o.states++
 		// scheduling points of each call when run alone
 		prod := 1
 		for _, c := range sc.Calls {
 			np := 0
-			pl := c16Pool()
+			pl := c16Fresh(sc)
 			verifrt.Hook = func(int) { np++ }
 			verifrt.SchedOn = true
 			c.run(pl)
